@@ -54,6 +54,12 @@ func (f *Min) Call(s *slip.Scope, args slip.List, depth int) slip.Object {
 	}
 	pos++
 	for ; pos < len(args); pos++ {
+		if c, ok := compareByValue(min, args[pos]); ok {
+			if 0 < c {
+				min = args[pos]
+			}
+			continue
+		}
 		arg, mx := slip.NormalizeNumber(args[pos], min)
 		switch ta := arg.(type) {
 		case slip.Fixnum:
